@@ -155,7 +155,9 @@ fn one(r: &mut Rng, rep: &mut Report, i: u64, shard: usize, seed: u64) {
         // a panic or an exhausted step budget inside the library is C02's finding; the binary can only do the same
         if let Some(sig) = ABORTED.with(|a| a.borrow_mut().take()) { rep.abort(sig, files); cleanup(&dir); return }
         let mut ok = true;
-        if ran.code != Some(0) { rep.violation("seq:exit-status".into(), || json!({"case": files(), "code": ran.code, "stderr": ran.stderr, "stdout": ran.stdout.chars().take(1500).collect::<String>()})); ok = false; }
+        // (the exit status when some stage is in error is not part of the property; a crash is)
+        let any_err = exp.iter().any(|x| x.is_none());
+        if ran.code != Some(0) && (!any_err || ran.code.map(|c| c > 2).unwrap_or(true)) { rep.violation("seq:exit-status".into(), || json!({"case": files(), "code": ran.code, "stderr": ran.stderr, "stdout": ran.stdout.chars().take(1500).collect::<String>()})); ok = false; }
         if ok { for (ti, t) in tree.tags.iter().enumerate() {
             let got = out_files(&dir, &t.name);
             match &exp[ti] {
